@@ -1,15 +1,17 @@
 from common import T_COMMON
 
 CFG = dict(
-    theorems=["leVal_leBytes", "decodeN_encodeComps",
-              "glb_frame_length", "glb_frame",
-              "isMinOf_fold", "isMaxOf_fold",
-              "tiles_append", "tiles_inside", "tiles_disjoint",
-              "decodeAcc_append", "accOK_append", "accOK_new_vec", "boundsOK_vec",
-              "inv_step", "inv_run",
+    modules=["PolyVerif.Props.C06", "PolyVerif.Props.C06Scene"],
+    # property theorems (audited); scene_* quantify over EVERY well-formed scene, gltf_* over every admissible write sequence
+    theorems=["scene_inv", "scene_valid_low",
               "gltf_bytesWritten_eq_len", "gltf_views_tile", "gltf_accessor_fits", "gltf_minmax",
               "gltf_decode_image", "gltf_decode_indices", "gltf_index_width",
+              "glb_frame_length", "glb_frame", "glb_frame_bin",
               "gltf_alignment_counterexample", "gltf_alignment_partial"],
+    # helper lemmas the above rest on (kernel-checked with the module, not counted as obligations)
+    helper_theorems=["leVal_leBytes", "decodeN_encodeComps", "isMinOf_fold", "isMaxOf_fold", "tiles_append", "tiles_inside",
+                     "tiles_disjoint", "decodeAcc_append", "accOK_append", "accOK_new_vec", "boundsOK_vec", "inv_step", "inv_run",
+                     "inv_addMesh", "inv_addInstances", "inv_addModel", "lowEq_addMaterial", "lowEq_addTexture"],
     streams=[dict(name="c06", n=dict(quick=150, thorough=15000))],
     trusted=T_COMMON + [
         "hand-written model PolyVerif/Model/Gltf.lean of formats/gltf/{writer,write,model,model_trackers}.go, tied by exact comparison of the parsed document, the buffer bytes and the GLB file bytes (stream c06)",
